@@ -135,7 +135,11 @@ class QGen:
         rng = self.rng
         r = rng.random()
         if r < 0.35 or (self.date_pool and r < 0.6):
-            if self.date_pool:
+            if rng.random() < 0.08:
+                from .page import SPECIAL_DAYS
+
+                d = rng.choice(SPECIAL_DAYS)
+            elif self.date_pool:
                 d = rng.choice(self.date_pool) + dt.timedelta(days=rng.choice([0, 0, 0, -1, 1]))
             else:
                 d = dt.date(2024, 1, 1) + dt.timedelta(days=rng.randint(0, 2500))
